@@ -794,12 +794,12 @@ def compare_generated(c, batch, t, desc, L=0, use_batch=True, nontrivial=True, r
 
 
 # ------------------------------------------------------------------ vmapped construction
-def vmapped_case(rng, levels):
+def vmapped_case(rng, levels, kind=None):
     """returns (mk, batched inputs, axis sizes): mk builds a nest of wrappers from array arguments"""
     g = Gen(rng)
     sizes = [rng.choice([1, 2, 3]) for _ in range(levels)]
     shape = rng.choice([(), (2,), (3,)])
-    kind = rng.choice(["la", "br", "br_la", "la_br_cont", "nt_la", "wh_same", "pair", "ident", "la_bool", "la_int"])
+    kind = kind or rng.choice(["la", "br", "br_la", "la_br_cont", "nt_la", "wh_same", "pair", "ident", "la_bool", "la_int"])
     tags = [g.t() for _ in range(6)]
     mask = g.mask(shape)
 
@@ -1209,6 +1209,19 @@ def corr(c, tier, rng):
         except Exception as ex:
             c.mismatch("harness-exception", desc=f"vmapped#{i}:{kind}", exc=repr(ex)[:300])
         c.count(f"vmapped-levels:{levels}")
+
+    # B'. the GENERATED traversal on every vmapped kind with a bool / int / float mapped Lambda leaf, 1 and 2 levels (not left to chance)
+    for kind in ("la_bool", "la_int", "la", "br_la"):
+        for levels in (1, 2):
+            try:
+                kind, mk, x, y, sizes = vmapped_case(rng, levels, kind=kind)
+                f = mk
+                for _ in sizes:
+                    f = eqx.filter_vmap(f)
+                compare_generated(c, batch, f(x, y), f"vmapped-generated:{kind}:{sizes}", L=levels)
+                c.count(f"generated-vmapped:{kind}")
+            except Exception as ex:
+                c.mismatch("harness-exception", desc=f"vmapped-generated:{kind}:{levels}", exc=repr(ex)[:300])
 
     # C. real flows: model partition / num_params / unwrap structure; methods; gradients; training
     key, k1, k2 = jr.split(key, 3)
